@@ -75,6 +75,7 @@ type c13World struct {
 	fresh    int
 	steps    []c13Step
 	pathOps  []map[string][]string // step -> path -> "kind@branch"
+	gitlinks bool // this history also replaces files by submodule links and back
 	cur      map[string]*bytes.Buffer
 	curOps   []string
 	curPaths map[string][]string
@@ -191,6 +192,9 @@ var c13Kinds = []string{"to-gitlink", "from-gitlink", "add", "add", "modify", "m
 func (w *c13World) op() bool {
 	kind := c13Kinds[w.r.IntN(len(c13Kinds))]
 	b := w.branches[w.r.IntN(len(w.branches))]
+	if strings.HasSuffix(kind, "-gitlink") && !w.gitlinks {
+		return false
+	}
 	switch kind {
 	case "add":
 		p, ok := w.pickNotIn(b)
@@ -295,7 +299,7 @@ func (w *c13World) op() bool {
 	case "to-gitlink":
 		// a file replaced, at the same path, by a submodule link (never a document)
 		p, ok := w.pickIn(b)
-		if !ok || w.r.IntN(2) == 0 {
+		if !ok {
 			return false
 		}
 		w.put(kind, b, p, c13File{Link: fmt.Sprintf("%040x", w.r.Uint64())})
@@ -525,6 +529,7 @@ func c13History(rec *kit.Rec, hi int) {
 		return
 	}
 	w.branches = []string{"main", "dev", "rel"}[:2+r.IntN(2)]
+	w.gitlinks = hi%4 == 3
 	for _, b := range w.branches {
 		w.tree[b] = c13Tree{}
 	}
@@ -757,6 +762,17 @@ func c13Views(rec *kit.Rec, w *c13World, dir string, branches []string, what str
 		}
 		d := diffs[0]
 		sig := fmt.Sprintf("%s view wrong/%s/%s", what, d.Kind, w.pattern(d.Path, b))
+		if n := len(w.pathOps); n > 0 {
+			// one stable signature for the file <-> submodule link transitions
+			for _, o := range w.pathOps[n-1][d.Path] {
+				switch o {
+				case "to-gitlink@" + b:
+					sig = fmt.Sprintf("%s view wrong/%s/file replaced by a gitlink at the same path", what, d.Kind)
+				case "from-gitlink@" + b:
+					sig = fmt.Sprintf("%s view wrong/%s/gitlink replaced by a file at the same path", what, d.Kind)
+				}
+			}
+		}
 		if strings.HasPrefix(what, "index-dir/") && !deltaTaken {
 			sig = fmt.Sprintf("%s (full build taken) view wrong/%s", what, d.Kind)
 		}
